@@ -340,6 +340,7 @@ def run(m, tier):
     results.append(_rr.replace_map_table_rule(m, "C19.R17"))
     results.append(_rr.rule_semicolon(m, "C19.R18"))
     results.append(_ri.stream_rule(m, "C19.R19", tier))
+    results.append(_rr.rule_inline_table(m, "C19.R20"))
     expl = ("Decides structural clauses of C19 over the statement classes of fparser.one: the literal keyword prefix each printer emits "
             "(lower-cased as the reader does) is a viable prefix of the class's own match regex (prefix viability on the sre parse "
             "tree); every block statement names an END class whose regex accepts the `END <blocktype> [name]` line that class prints; "
